@@ -478,3 +478,25 @@ def confirm_history(ses, v):
 
 
 PY_CONFIRM.update({'core_builder_reuse': confirm_core_reuse, 'setter': confirm_setter, 'c15_history': confirm_history})
+
+
+def confirm_footer_compare(ses, v):
+    """tokens whose footer segment is a proper prefix / extension / other spelling of b64url(F) presented with expected footer F"""
+    import base64
+    for proto in ('v4.local', 'v4.public'):
+        m = {'key': '07' * 32, 'nonce': '09' * 32, 'message': '6d'}
+        steps = key_steps(proto, m); alts = []
+        for fi, ftxt in enumerate(['f', 'fo', 'foo', 'some footer']):
+            mm = dict(m); mm['footer'] = ftxt.encode().hex(); steps.append(build_step(proto, mm, 'some', 'none', out='T%d' % fi))
+            real = base64.urlsafe_b64encode(ftxt.encode()).decode().rstrip('=')
+            for ci, c in enumerate([real[:-1], real[:1], real + 'A', real + 'AA', real + '=', '']):
+                steps += [{'op': 'mutate', 'in': '$T%d' % fi, 'out': 'M%d_%d' % (fi, ci), 'ops': [{'footer_seg': c}]},
+                          {'op': 'parse_core', 'proto': proto, 'token': '$M%d_%d' % (fi, ci), 'key': '$k_pk', 'footer': ftxt, 'assertion': None, 'out': 'R%d_%d' % (fi, ci)}]
+                alts.append([{'var': 'R%d_%d' % (fi, ci), 'is': 'ok'}])
+        out = run_native({'steps': steps, 'violated_if': alts}); ses.native_runs = getattr(ses, 'native_runs', 0) + 1
+        v['native'] = {'violated': out.get('violated'), 'accepted': [t for t in (out.get('trace') or []) if 'parse_core' in t and str(t.get('result', '')).startswith('Ok')][:3]}
+        if out.get('violated'): v['what'] += ' [natively: %s accepts a token whose footer segment is not b64url(F): %s]' % (proto, str(v['native']['accepted'])[:200]); return True
+    return False
+
+
+PY_CONFIRM.update({'footer_compare': confirm_footer_compare})
